@@ -427,6 +427,47 @@ class Checker:
         rep.ob('R19.4', fi, 'receives per endpoint per spin', outs <= {0, 1} and 1 in outs,
                'receive counts per endpoint visit: %s (must be 0 or 1, keyed by the visited endpoint)' % sorted(map(str, outs)), line=lp.lineno)
 
+    # -------------------------------------------------------------- R19.7
+    def r197(self):
+        """What an endpoint's getData returns belongs to THIS receive: None, or a value made on the path (a local, or a field of the
+        endpoint the path itself stored).  A field read back without having been stored on the path is what an earlier receive left
+        there: a time-out would then deliver the previous message once more."""
+        from ..engine.paths import paths_of
+        rep = self.rep
+        rep.rule('R19.7', 'endpoint getData returns None or a value of this very receive (never a field left by an earlier receive)')
+        base = self.model.cls('basic_robotics.interfaces.comms_object', 'CommsObject')
+        n = 0
+        for c in self.model.subclasses(base):
+            fi = c.methods.get('getData')
+            if fi is None:
+                continue
+            try:
+                ps = paths_of(fi.node, fi.params)
+            except RuntimeError as ex:
+                rep.unresolved_item('R19.7', fi.where, 'paths of %s not summarised (%s)' % (fi.qualname, ex))
+                continue
+            stale = []
+            for pth in ps:
+                if pth.ret in (None, '<none>', 'None'):
+                    continue
+                n += 1
+                try:
+                    rt = ast.parse(pth.ret_src, mode='eval').body
+                except SyntaxError:
+                    continue
+                stored = {e[1] for e in pth.events if e[0] == 'store'}
+                if any(isinstance(c_, ast.Call) for c_ in ast.walk(rt)):
+                    continue              # obtained by a call made on this path (a read through the handle): of this receive
+                for a in ast.walk(rt):
+                    if isinstance(a, ast.Attribute) and isinstance(a.value, ast.Name) and a.value.id == 'self' and isinstance(a.ctx, ast.Load):
+                        if 'self.%s' % a.attr not in stored:
+                            stale.append(('self.%s' % a.attr, pth.ret_line, sorted(pth.facts.items())[:2]))
+            rep.ob('R19.7', fi, '%s returns a value of this receive on every path' % fi.qualname, not stale,
+                   '%s can return %s on a path that never stores it (%s): after a receive that brought nothing (time-out) the caller gets the PREVIOUS '
+                   'message again, and Comms.getData forwards and sinks it a second time' % (fi.qualname, stale[0][0] if stale else '', stale[0][2] if stale else ''),
+                   line=stale[0][1] if stale else None)
+        rep.floor('R19.7', 'data-returning paths of endpoint receives', n, 1)
+
     # -------------------------------------------------------------- R19.6
     def _poll_guard(self, fi, lp, name):
         """An endpoint that has at least one active rule (a non-empty forwarding list or a non-empty sink list) must be polled in
@@ -596,3 +637,4 @@ def check(model, rep):
     ck.r192_193()
     ck.r194()
     ck.r195()
+    ck.r197()
